@@ -6,7 +6,8 @@
    other, every configuration (follower, disable_repinning) and every Go map / datastore order oracle per peer.
    The full re-homing statement is false for pins created by pin-update (finding S10): it is proved for all other
    pins (`_partial`) and refuted by a concrete scenario (`_refuted`). *)
-From V Require Import Base.Common Model.C03_Alloc Model.C04_ClusterOps Proofs.C04_ClusterOps Model.C10_Repin Proofs.C10_Repin.
+From V Require Import Base.Common Model.C03_Alloc Model.C03_Check Model.C04_ClusterOps Model.C04_Check Proofs.C04_ClusterOps Proofs.C04_Check
+  Model.C10_Repin Model.C10_Check Proofs.C10_Repin Proofs.C03_Monitor Proofs.C10_Monitor.
 From Coq Require Import Permutation.
 Open Scope Z_scope.
 
@@ -122,3 +123,64 @@ Example c10_s10_example :
   aget 1%N (fst res) = Some S10.x /\ total_cnt 1%N (snd res) = 0%nat /\
   allocate (e_now S10.e) (repin_input (pc_cfg S10.pc) S10.e S10.f S10.x) (fun xs => xs) = Ok [1%N].
 Proof. exact S10.what_happens. Qed.
+
+(* ---- the run-time monitor (Model/C10_Check.v, code 2) means what it should: soundness ---- *)
+
+(* failure / removal: no CID reported by repin_bad -> every entry (c, x) of the pinset before satisfies repin_clause
+   (Proofs/C10_Monitor.v): not held by f -> same pin after, nobody logged it; held by f -> logged by at most one peer (peers
+   trusting each other) and at most once per peer, and for a well-formed unexpired pin: enough healthy holders without f, or
+   the minimum out of reach -> same pin after; otherwise (every candidate peer ran) stored with an allocation that excludes f
+   and satisfies C03's alloc_spec for the pin's factors with f excluded, all options / type / depth / reference as they were,
+   LogPin by exactly one peer *)
+Theorem repin_monitor_sound now rv ms all_trusted all_eligible f st0 stF steps :
+  NoDup (map mpeer ms) -> repin_bad now rv ms all_trusted all_eligible f st0 stF steps = [] ->
+  forall c x, In (c, x) st0 -> repin_clause now rv ms all_trusted all_eligible f st0 stF steps c x.
+Proof. exact (repin_monitor_sound_l now rv ms all_trusted all_eligible f st0 stF steps). Qed.
+Print Assumptions repin_monitor_sound.
+
+(* expiry sweep: no CID reported by sync_bad -> an expired ordinary pin (peers trusting each other, not collateral of an expired
+   meta pin) was LogUnpin-ed at most once, and exactly once and is gone when every member ran; an unexpired one is the same
+   pin after and was never logged *)
+Theorem sync_monitor_sound now ls all_trusted all_eligible st0 stF steps :
+  sync_bad now ls all_trusted all_eligible st0 stF steps = [] ->
+  forall c x, In (c, x) st0 -> sync_clause now ls all_trusted all_eligible st0 stF steps c x.
+Proof. exact (sync_monitor_sound_l now ls all_trusted all_eligible st0 stF steps). Qed.
+Print Assumptions sync_monitor_sound.
+
+(* followers, repinning disabled, alerts other than ping: the pinset after is the pinset before, nothing logged *)
+Theorem idle_monitor_sound kind st steps : idle_ok kind st steps = true -> idle_spec kind st steps.
+Proof. exact (fun H => idle_ok_sound kind steps st H). Qed.
+Print Assumptions idle_monitor_sound.
+
+(* exactly one closest: for every (excluded peer, CID) about which every trusted candidate's isClosest answer was recorded (as many
+   trusted answers as trusted candidates, at least one candidate), exactly one of those answers is "closest" *)
+Theorem one_closest_monitor_sound members trusted cs :
+  one_closest_ok members trusted cs = true -> one_closest_spec members trusted cs.
+Proof. exact (one_closest_ok_sound members trusted cs). Qed.
+Print Assumptions one_closest_monitor_sound.
+
+(* a whole harness case: check_case reports no code 2 -> scenario_spec (one entry per CID after; idle runs idle; exactly one trusted candidate
+   closest; no key removed or added by re-pinning, none added by a sweep; repin_clause resp. sync_clause for every entry, with
+   "peers trusting each other" = all members trusted or the untrusted ones idle, "every candidate ran" = every trusted candidate) *)
+Theorem check_case_sound id dmin dmax rv hpt hct members untrusted ms ls st0l kind f steps cs :
+  NoDup (map mpeer ms) ->
+  (forall t, ~ In (id, 2%N, t)
+     (check_case (id, (dmin, dmax, rv, hpt, hct, members, untrusted, ms, ls, st0l, (kind, f, steps), cs)))) ->
+  scenario_spec rv members untrusted ms ls (of_list st0l) kind f steps cs.
+Proof. exact (check_case_sound_l id dmin dmax rv hpt hct members untrusted ms ls st0l kind f steps cs). Qed.
+Print Assumptions check_case_sound.
+
+(* non-vacuity: peer 0 fails; CID 1 (only on 0) is re-homed to peer 1 by peer 1, CID 2 (on 1, 2) is left alone: accepted.
+   Not re-homed, or logged by both survivors: rejected *)
+Example c10_monitor_example :
+  let x0 := mk_pin (mk_opts 1 1 0%N 0%N 0%N [] None [] None []) 1%N DataT [0%N] (-1) None in
+  let x1 := mk_pin (mk_opts 1 1 0%N 0%N 0%N [] None [] None []) 1%N DataT [1%N] (-1) None in
+  let x2 := mk_pin (mk_opts 2 3 0%N 0%N 0%N [] None [] None []) 2%N DataT [1%N; 2%N] (-1) None in
+  let ms := [mk_metric 1 (Some 10%N) 3600 true; mk_metric 2 (Some 20%N) 3600 true] in
+  let cse (after1 : list pin) (logs2 : list N) : case :=
+    (7%N, (1, 1, false, [(0,0);(1,1);(2,2)]%N, [(1,1);(2,2)]%N, [0;1;2]%N, @nil N, ms, @nil (N * list N),
+           [x0; x2], (0%N, 0%N, [(1%N, false, false, true, [1%N], after1); (2%N, false, false, true, logs2, after1)]),
+           [(1, Some 0, 1, true); (2, Some 0, 1, false)]%N)) in
+  NoDup (map mpeer ms) /\ check_case (cse [x1; x2] []) = [] /\
+  check_case (cse [x0; x2] []) = [(7, 1, 0); (7, 2, 0)]%N /\ check_case (cse [x1; x2] [1%N]) = [(7, 1, 0); (7, 2, 0)]%N.
+Proof. cbv zeta. split; [simpl; repeat constructor; simpl; intuition discriminate|]. repeat split; vm_compute; reflexivity. Qed.
